@@ -1,3 +1,374 @@
-import Cutadapt.Stats
+import Cutadapt.Proofs.ModsAssembly
+/-! # C17 — the info file locates every match and reconstructs every read
+
+Model: `infoRows` (`InfoFileWriter` + `get_info_records`), `stepS`/`runStepsS`/`processReadS`, `makeSteps`/`makeSingle`.
+Rows are lists of tab-separated fields; fields are numbered as in the documentation (1 = read name, 2 = errors,
+3/4 = start/end, 5/6/7 = sequence left of / inside / right of the match, 8 = adapter name, 9/10/11 = the qualities split
+at the same places, 12 = reverse-complement flag), i.e. field `n` is element `n-1` of the field list.
+
+The clause "the middle field is the stretch that was aligned to the adapter" is **violated** by the code (and by the
+model, which follows the code) whenever bases were removed before adapter trimming from the end that is the 5' end of
+the sequence shown, and for paired `--revcomp` with the swapped pair chosen: `middle_is_aligned_stretch_statement`
+is the full claim, `…_counterexample` refutes it with a run of the pipeline, `…_partial` proves it under the condition
+that the rows start from the read the adapter stage searched. -/
 namespace Cutadapt.C17
+open Cutadapt Cutadapt.Adapters
+
+/-! ## Vocabulary -/
+
+/-- the single matches a match consists of (`[m]` for a single match; front then back part for a linked match) -/
+theorem parts_def (m : AnyMatch) :
+    m.parts = match m with | .single _ r => [r] | .linked _ f b => f.toList ++ b.toList := by
+  cases m <;> rfl
+
+/-- the read whose pieces the rows of the first match show: the original read, reverse-complemented iff flagged -/
+theorem infoStart_def (info : Info) :
+    infoStart info = if info.isRc = some true then info.original.revcomp else info.original := by
+  unfold infoStart
+  cases info.isRc with
+  | none => rfl
+  | some b => cases b <;> rfl
+
+/-- all parts of all matches of a read, in the order found -/
+abbrev allParts (info : Info) : List MatchRec := info.mts.flatMap AnyMatch.parts
+
+/-- what is left when the rows of part number `k` are written: the start read with parts `0..k-1` removed in turn -/
+abbrev curAt (info : Info) (k : Nat) : Read := trimParts (infoStart info) ((allParts info).take k)
+
+theorem trimParts_def (rd : Read) (ps : List MatchRec) : trimParts rd ps = ps.foldl (fun r p => p.trimmed r) rd := rfl
+
+/-! ## One row per read at least -/
+
+/-- **A read without match gets a single row with `-1`**: name, `-1`, sequence, qualities -/
+theorem unmatched_single_row (names : Names) (read : Read) (info : Info) (h : info.mts = []) :
+    infoRows names read info = [joinTab [read.name, bytesOfStr "-1", read.seq, read.qual.getD []]] :=
+  infoRows_unmatched names read info h
+
+theorem minus_one_bytes : bytesOfStr "-1" = [45, 49] := by decide +kernel
+
+/-- **A read with matches gets one row per match — two for a linked match with both parts — in the order found** -/
+theorem rows_per_match (names : Names) (read : Read) (info : Info) (h : info.mts ≠ []) :
+    infoRows names read info = (infoRowFields names read info).map joinTab ∧
+    (infoRows names read info).length = (info.mts.map (fun m => m.parts.length)).sum ∧
+    (∀ a r, (AnyMatch.single a r).parts.length = 1) ∧
+    (∀ a f b, (AnyMatch.linked a f b).parts.length = (if f.isSome then 1 else 0) + (if b.isSome then 1 else 0)) := by
+  refine ⟨infoRows_matched names read info h, ?_, fun _ _ => rfl, ?_⟩
+  · rw [infoRows_matched names read info h, List.length_map, infoRowFields, rowFieldsOf_length]
+    have : ∀ ms : List AnyMatch, (ms.flatMap (AnyMatch.labelledParts names)).length = (ms.map (fun m => m.parts.length)).sum := by
+      intro ms
+      induction ms with
+      | nil => rfl
+      | cons m ms ih =>
+        rw [List.flatMap_cons, List.length_append, ih, List.map_cons, List.sum_cons, ← AnyMatch.labelledParts_fst names m,
+          List.length_map]
+    exact this _
+  · intro a f b; cases f <;> cases b <;> rfl
+
+/-- **At least one row for every read** (every match a cutter reports has at least one part) -/
+theorem row_per_read (names : Names) (read : Read) (info : Info) (hp : ∀ m ∈ info.mts, m.parts ≠ []) :
+    (infoRows names read info).length ≥ 1 := by
+  by_cases h : info.mts = []
+  · rw [unmatched_single_row names read info h]; simp
+  · rw [(rows_per_match names read info h).2.1]
+    cases hm : info.mts with
+    | nil => exact absurd hm h
+    | cons m ms =>
+      have : m.parts.length ≥ 1 := by
+        have := hp m (by rw [hm]; exact List.mem_cons_self)
+        cases hq : m.parts with
+        | nil => exact absurd hq this
+        | cons _ _ => simp
+      simp only [List.map_cons, List.sum_cons]
+      omega
+
+/-- the hypothesis of `row_per_read` holds for everything the modifiers record -/
+theorem recorded_matches_have_parts (names : Names) (mods : List SMod) (read r : Read) (i : Info) (evs evs' : List Event)
+    (h : runModsS names mods read { original := read } evs = .ok (r, i, evs')) : ∀ m ∈ i.mts, m.parts ≠ [] :=
+  runModsS_parts names mods read r { original := read } i evs evs' (by simp) h
+
+/-! ## What a row contains -/
+
+/-- the adapter-name field: the adapter's name; `;1` / `;2` appended for the parts of a linked adapter -/
+theorem adapter_name_field (names : Names) (m : AnyMatch) :
+    m.labelledParts names = match m with
+      | .single a r => [(r, bytesOfStr (names.getD a ""))]
+      | .linked a f b =>
+        f.toList.map (fun p => (p, bytesOfStr (names.getD a "") ++ bytesOfStr ";1")) ++
+        b.toList.map (fun p => (p, bytesOfStr (names.getD a "") ++ bytesOfStr ";2")) := by
+  cases m <;> rfl
+
+theorem linked_suffix_bytes : bytesOfStr ";1" = [59, 49] ∧ bytesOfStr ";2" = [59, 50] := by
+  constructor <;> decide +kernel
+
+/-- **Row number `k` (0-based), field by field**: for part `p = allParts[k]` and `cur = curAt info k`:
+    name, errors, start, end, `cur.seq[:start]`, `cur.seq[start:end]`, `cur.seq[end:]`, adapter name,
+    the same three pieces of the qualities (empty strings without qualities), flag -/
+theorem row_fields (names : Names) (read : Read) (info : Info) (k : Nat) (p : MatchRec)
+    (hp : (allParts info)[k]? = some p) :
+    ∃ nm, ((info.mts.flatMap (AnyMatch.labelledParts names))[k]? = some (p, nm)) ∧
+      (infoRowFields names read info)[k]? = some
+        [read.name, natToBytes p.m.errors, natToBytes p.m.rstart, natToBytes p.m.rstop,
+         (curAt info k).seq.take p.m.rstart, seg (curAt info k).seq p.m.rstart p.m.rstop, (curAt info k).seq.drop p.m.rstop,
+         nm,
+         ((curAt info k).qual.getD []).take p.m.rstart, seg ((curAt info k).qual.getD []) p.m.rstart p.m.rstop,
+         ((curAt info k).qual.getD []).drop p.m.rstop,
+         rcField info.isRc] := by
+  have hfst : (info.mts.flatMap (AnyMatch.labelledParts names)).map (·.1) = allParts info := by
+    unfold allParts
+    induction info.mts with
+    | nil => rfl
+    | cons m ms ih => rw [List.flatMap_cons, List.flatMap_cons, List.map_append, ih, AnyMatch.labelledParts_fst]
+  have hk : ((info.mts.flatMap (AnyMatch.labelledParts names)).map (·.1))[k]? = some p := by rw [hfst]; exact hp
+  rw [List.getElem?_map] at hk
+  cases hl : (info.mts.flatMap (AnyMatch.labelledParts names))[k]? with
+  | none => rw [hl] at hk; simp at hk
+  | some pn =>
+    obtain ⟨p', nm⟩ := pn
+    rw [hl] at hk
+    simp only [Option.map_some, Option.some.injEq] at hk
+    subst hk
+    refine ⟨nm, rfl, ?_⟩
+    unfold infoRowFields
+    rw [rowFieldsOf_getElem?, hl]
+    simp only [Option.map_some, curAt]
+    rw [List.map_take, hfst]
+    rfl
+
+theorem rcField_def (isRc : Option Bool) :
+    rcField isRc = match isRc with | none => [] | some true => [49] | some false => [48] := rfl
+
+/-- **The three sequence fields concatenate to the read as it was read (reverse-complemented if flagged), or, for later
+    rounds, to what the previous round left of it; the three quality fields split the qualities at the same
+    coordinates.** (Fields 5–7 and 9–11 of row `k`, for a match with `rstart ≤ rstop`.) -/
+theorem fields_concatenate (names : Names) (read : Read) (info : Info) (k : Nat) (p : MatchRec)
+    (hp : (allParts info)[k]? = some p) (hb : p.m.rstart ≤ p.m.rstop) :
+    ∃ fields, (infoRowFields names read info)[k]? = some fields ∧ fields.length = 12 ∧
+      fields[4]! ++ fields[5]! ++ fields[6]! = (curAt info k).seq ∧
+      fields[8]! ++ fields[9]! ++ fields[10]! = (curAt info k).qual.getD [] ∧
+      fields[5]! = seg (curAt info k).seq p.m.rstart p.m.rstop ∧
+      fields[4]!.length = min p.m.rstart (curAt info k).seq.length ∧
+      curAt info 0 = infoStart info := by
+  obtain ⟨nm, _, h⟩ := row_fields names read info k p hp
+  refine ⟨_, h, rfl, ?_, ?_, rfl, by simp, rfl⟩
+  · exact take_append_seg_append_drop _ _ _ hb
+  · exact take_append_seg_append_drop _ _ _ hb
+
+/-- each later row starts from what the previous part left: `read[rstop:]` after a 5' match, `read[:rstart]` after a 3' match -/
+theorem curAt_succ (info : Info) (k : Nat) (p : MatchRec) (hp : (allParts info)[k]? = some p) :
+    curAt info (k+1) = p.trimmed (curAt info k) := by
+  unfold curAt
+  have hk : k < (allParts info).length := by
+    rcases Nat.lt_or_ge k (allParts info).length with h | h
+    · exact h
+    · rw [List.getElem?_eq_none h] at hp; simp at hp
+  have hpk : (allParts info)[k] = p := by
+    rw [List.getElem?_eq_getElem hk] at hp; exact Option.some.inj hp
+  rw [List.take_succ_eq_append_getElem hk, trimParts_append, hpk]
+  rfl
+
+/-! ## The middle field and the aligned stretch -/
+
+/-- the stretch of `match.sequence` that was aligned to the adapter -/
+theorem matchSequence_def (p : MatchRec) : p.matchSequence = seg p.sequence p.m.rstart p.m.rstop := rfl
+
+/-- **Full claim (false for the current code):** for every pipeline the CLI assembles and every read, the middle field
+    of every info row is the stretch of the searched string that was aligned to the adapter -/
+def middle_is_aligned_stretch_statement : Prop :=
+  ∀ (o : Opts) (ads : List Matchable) (mods : List SMod), makeModsSingle o ads = .ok mods →
+  ∀ (read r : Read) (i : Info) (evs : List Event),
+    runModsS (namesOf ads) mods read { original := read } [Event.input read.len none] = .ok (r, i, evs) →
+  ∀ (k : Nat) (p : MatchRec) (fields : List Bytes), (allParts i)[k]? = some p →
+    (infoRowFields (namesOf ads) r i)[k]? = some fields → fields[5]? = some p.matchSequence
+
+theorem partChain_getElem (rd : Read) (ps : List MatchRec) (hc : PartChain rd ps) (k : Nat) (p : MatchRec)
+    (hp : ps[k]? = some p) : p.sequence = (trimParts rd (ps.take k)).seq := by
+  induction ps generalizing rd k with
+  | nil => simp at hp
+  | cons q qs ih =>
+    obtain ⟨h1, h2⟩ := hc
+    cases k with
+    | zero => simp at hp; subst hp; simpa using h1
+    | succ k => simp at hp; simpa using ih _ h2 k hp
+
+/-- **Partial result:** if the first part's `match.sequence` is the sequence the rows start from (the original read,
+    reverse-complemented if flagged) and every later part's `match.sequence` is what the previous part left — which is the
+    case when nothing was removed before the adapter stage and the pair was not swapped — then the middle field of every
+    row *is* the aligned stretch -/
+theorem middle_is_aligned_stretch_partial (names : Names) (read : Read) (info : Info)
+    (hc : PartChain (infoStart info) (allParts info)) (k : Nat) (p : MatchRec) (hp : (allParts info)[k]? = some p) :
+    ∃ fields, (infoRowFields names read info)[k]? = some fields ∧ fields[5]? = some p.matchSequence := by
+  obtain ⟨nm, _, h⟩ := row_fields names read info k p hp
+  refine ⟨_, h, ?_⟩
+  rw [matchSequence_def, partChain_getElem _ _ hc k p hp]
+  rfl
+
+theorem partChain_def (rd : Read) (p : MatchRec) (ps : List MatchRec) :
+    (PartChain rd [] ↔ True) ∧ (PartChain rd (p :: ps) ↔ (p.sequence = rd.seq ∧ PartChain (p.trimmed rd) ps)) :=
+  ⟨Iff.rfl, Iff.rfl⟩
+
+/-- the condition of the partial result holds when the adapter stage is the first modifier (single-end, no `--revcomp`):
+    the rows start from exactly the read that was searched (upper-cased under `lowercase`, as `info.original_read` is) -/
+theorem adapters_first_chain (names : Names) (side : Nat) (c : Cutter) (read r : Read) (i : Info) (evs : List Event)
+    (h : applyS names side (.adapters c true) read { original := read } = .ok (r, i, evs)) :
+    PartChain (infoStart i) (allParts i) := by
+  rw [applyS_adapters] at h
+  split at h
+  · simp at h
+  · rename_i tr ms ra hmt
+    simp only [Except.ok.injEq, Prod.mk.injEq] at h
+    obtain ⟨_, rfl, _⟩ := h
+    obtain ⟨_, hch⟩ := matchAndTrim_parts c read tr ra ms hmt
+    obtain ⟨_, hra⟩ := matchAndTrim_matches c read tr ra ms hmt
+    have hstart : infoStart { originalAfter true ({ original := read } : Info) ra with
+        mts := (originalAfter true ({ original := read } : Info) ra).mts ++ ms } = searchRead c read := by
+      subst hra
+      have e : infoStart { originalAfter true ({ original := read } : Info) (searchRead c read) with
+          mts := (originalAfter true ({ original := read } : Info) (searchRead c read)).mts ++ ms } =
+          { read with seq := (searchRead c read).seq } := rfl
+      rw [e]
+      unfold searchRead
+      split <;> rfl
+    rw [hstart]
+    simpa [allParts, originalAfter, MatchChain] using hch
+
+/-- …and the later modifiers (trimmers, renamers, zero-capping) do not touch matches, original read or flag, so the
+    condition still holds when the info file is written -/
+theorem later_modifiers_keep_info (names : Names) (side : Nat) (m : SMod)
+    (hm : m.isTrimmer = true ∨ m.isNameMod = true ∨ (∃ b, m = .zeroCap b)) (r r' : Read) (i i' : Info)
+    (evs : List Event) (hq : QualOK r) (h : applyS names side m r i = .ok (r', i', evs)) :
+    i'.mts = i.mts ∧ i'.original = i.original ∧ i'.isRc = i.isRc := by
+  rcases hm with hm | hm | ⟨b, rfl⟩
+  · obtain ⟨_, _, h3, h4, h5⟩ := applyS_trimmer names side m hm r r' i i' evs hq h
+    exact ⟨h3, h4, h5⟩
+  · rw [(applyS_nameMod names side m hm r r' i i' evs h).2.2.1]; exact ⟨rfl, rfl, rfl⟩
+  · rw [(applyS_zeroCap names side b r r' i i' evs h).2.2.2.1]; exact ⟨rfl, rfl, rfl⟩
+
+/-! ### The counterexample: `-u 4 -a AAAGGG --info-file i` on `TTTTCCCCAAAGGGACGT` -/
+
+def cexAdapter : Adapter :=
+  { ty := .back, seq := [65,65,65,71,71,71], thr := fun L => L / 10, minOverlap := 3,
+    readWildcards := false, adapterWildcards := false, indels := true, name := "a1" }
+def cexOpts : Opts := { cut := [4], infoFile := some "i" }
+/-- `TTTTCCCCAAAGGGACGT` -/
+def cexRead : Read := ⟨[114,49], [84,84,84,84, 67,67,67,67, 65,65,65,71,71,71, 65,67,71,84], none⟩
+
+theorem cex_mods : makeModsSingle cexOpts [.single cexAdapter] =
+    .ok [.cut 4, .adapters ⟨[.single cexAdapter], 1, .trim⟩ false] := rfl
+
+/-- the match was found in the cut read `CCCCAAAGGGACGT` at `[4, 10)`, i.e. the stretch `AAAGGG`; the row slices the
+    *original* read at these coordinates and shows `CCCCAA` -/
+def cexCheck : Bool :=
+  match runModsS ["a1"] [.cut 4, .adapters ⟨[.single cexAdapter], 1, .trim⟩ false] cexRead { original := cexRead }
+      [Event.input 18 none] with
+  | .ok (r, i, _) =>
+    (match (allParts i)[0]?, (infoRowFields ["a1"] r i)[0]? with
+     | some p, some fields =>
+       p.m.rstart == 4 && p.m.rstop == 10 && p.sequence == [67,67,67,67, 65,65,65,71,71,71, 65,67,71,84] &&
+       p.matchSequence == [65,65,65,71,71,71] && fields[5]? == some [67,67,67,67,65,65]
+     | _, _ => false)
+  | .error _ => false
+
+theorem cexCheck_true : cexCheck = true := by decide +kernel
+
+theorem middle_is_aligned_stretch_counterexample : ¬ middle_is_aligned_stretch_statement := by
+  intro hst
+  have hc := cexCheck_true
+  unfold cexCheck at hc
+  split at hc
+  · rename_i r i evs hrun
+    split at hc
+    · rename_i p fields hp hf
+      have := hst cexOpts [.single cexAdapter] _ cex_mods cexRead r i evs hrun 0 p fields hp hf
+      simp only [Bool.and_eq_true, beq_iff_eq] at hc
+      obtain ⟨⟨_, hms⟩, hfield⟩ := hc
+      rw [this, hms] at hfield
+      exact absurd hfield (by decide)
+    · exact absurd hc (by simp)
+  · exact absurd hc (by simp)
+
+/-- the same run seen through the whole pipeline: the info row that `processReadS` emits has middle field `CCCCAA`
+    (`r1 0 4 10 TTTT CCCCAA AGGGACGT a1` + three empty quality fields + empty flag) -/
+theorem counterexample_row :
+    (match processReadS ⟨[.single cexAdapter], [.cut 4, .adapters ⟨[.single cexAdapter], 1, .trim⟩ false],
+        [.infoWriter 0, .sink 0]⟩ cexRead with
+      | .ok evs => evs.filterMap (fun e => match e with | .text 0 l => some l | _ => none)
+      | .error _ => []) =
+    [[114,49, 9, 48, 9, 52, 9, 49,48, 9, 84,84,84,84, 9, 67,67,67,67,65,65, 9, 65,71,71,71,65,67,71,84, 9, 97,49, 9, 9, 9, 9]] := by
+  decide +kernel
+
+/-! ### Second violation: paired `--revcomp` with the swapped pair chosen -/
+
+/-- R1 = `AAAACCCC`, R2 = `TTTTCCCCGATTACAGGG`, `-a GATTACAG --revcomp`: the adapter is found on R2 only, the swapped pair
+    is chosen, and `info1` records the match found in R2 (`[8, 16)`, stretch `GATTACAG`) — but the info rows of the first
+    mate slice the reverse complement of R1's original read (`GGGGTTTT`), so the middle field is empty -/
+def cexPairedCheck : Bool :=
+  let ad : Adapter :=
+    { ty := .back, seq := [71,65,84,84,65,67,65,71], thr := fun L => L / 10, minOverlap := 3,
+      readWildcards := false, adapterWildcards := false, indels := true, name := "g" }
+  let r1 : Read := ⟨[97], [65,65,65,65,67,67,67,67], none⟩
+  let r2 : Read := ⟨[98], [84,84,84,84,67,67,67,67, 71,65,84,84,65,67,65,71, 71,71], none⟩
+  match applyP [.single ad] [] (.pairedRevcomp (some ⟨[.single ad], 1, .trim⟩) none true true true) (r1, r2)
+      ({ original := r1 }, { original := r2 }) with
+  | .ok ((o1, _), (j1, _), _) =>
+    (match (allParts j1)[0]?, (infoRowFields ["g"] o1 j1)[0]? with
+     | some p, some fields =>
+       j1.isRc == some true && p.sequence == r2.seq && p.matchSequence == [71,65,84,84,65,67,65,71] &&
+       (infoStart j1).seq == [71,71,71,71,84,84,84,84] && fields[5]? == some []
+     | _, _ => false)
+  | .error _ => false
+
+theorem middle_is_aligned_stretch_paired_counterexample : cexPairedCheck = true := by decide +kernel
+
+/-! ## The info writer sees every read, filtered or not -/
+
+/-- `InfoFileWriter.__call__` returns the read: it never consumes it -/
+theorem info_writer_passes_read (ads : List Matchable) (idx f : Nat) (read : Read) (info : Info) :
+    stepS ads idx (.infoWriter f) read info = .ok (some read, (infoRows (namesOf ads) read info).map (Event.text f)) := rfl
+
+/-- the step list `make_pipeline_from_args` builds: with `--info-file`, the info writer is there and only text-file
+    writers (the rest-file writer) precede it — in particular every filter comes later -/
+theorem info_writer_before_filters_shape (o : Opts) (names names2 : List String) (path : String)
+    (hi : o.infoFile = some path) (steps : List Step) (fs : Files) (h : makeSteps o names names2 = .ok (steps, fs)) :
+    ∃ pre post idx, steps = pre ++ Step.infoWriter idx :: post ∧ ∀ s ∈ pre, s.isTextWriter = true ∧ s.isFilter = false := by
+  obtain ⟨pre, post, idx, e, hp⟩ := makeSteps_infoFirst o names names2 path hi (steps, fs) h
+  refine ⟨pre, post, idx, e, fun s hs => ⟨hp s hs, ?_⟩⟩
+  have := hp s hs
+  cases s <;> simp [Step.isTextWriter] at this <;> rfl
+
+/-- **Every read gets its rows, also reads that are filtered later**: in a pipeline assembled with `--info-file`, every
+    read that is processed without an exception has all its info rows — at least one — in the event log, whatever the
+    filters and sinks behind the info writer do with it -/
+theorem info_writer_before_filters (o : Opts) (ads : List Matchable) (p : SinglePipeline) (fs : Files) (path : String)
+    (hm : makeSingle o ads = .ok (p, fs)) (hi : o.infoFile = some path) :
+    ∃ idx, ∀ (read : Read) (out : List Event), processReadS p read = .ok out →
+      ∃ r i evs, runModsS (namesOf p.ads) p.mods read { original := read } [Event.input read.len none] = .ok (r, i, evs) ∧
+        (infoRows (namesOf p.ads) r i).length ≥ 1 ∧
+        ∀ row ∈ infoRows (namesOf p.ads) r i, Event.text idx row ∈ out := by
+  obtain ⟨steps, mods, hs, _, rfl⟩ := makeSingle_ok o ads p fs hm
+  obtain ⟨pre, post, idx, e, hp⟩ := makeSteps_infoFirst o _ _ path hi (steps, fs) hs
+  refine ⟨idx, ?_⟩
+  intro read out hout
+  unfold processReadS at hout
+  split at hout
+  · simp at hout
+  · rename_i r i evs hrun
+    refine ⟨r, i, evs, hrun, ?_, ?_⟩
+    · exact row_per_read _ r i (recorded_matches_have_parts _ _ read r i _ evs hrun)
+    · simp only at e
+      subst e
+      exact runStepsS_info_rows ads pre post idx hp 0 r i evs out hout
+
+/-! ## Non-vacuity: the two rows of a linked match -/
+
+/-- a linked match on `AAACGTTTT`: 5' part `[0, 3)` (row `;1`, pieces of the whole read), then 3' part `[2, 5)` found in
+    what the 5' part left, `CGTTTT` (row `;2`, pieces of that) -/
+example :
+    let m1 : MatchRec := ⟨⟨0, 3, 0, 3, 3, 0, true⟩, [65,65,65,67,71,84,84,84,84]⟩
+    let m2 : MatchRec := ⟨⟨0, 3, 2, 5, 3, 0, false⟩, [67,71,84,84,84,84]⟩
+    let info : Info := { mts := [.linked 0 (some m1) (some m2)], original := ⟨[114], [65,65,65,67,71,84,84,84,84], none⟩ }
+    infoRowFields ["ad"] ⟨[114], [67,71], none⟩ info =
+      [[[114], [48], [48], [51], [], [65,65,65], [67,71,84,84,84,84], [97,100,59,49], [], [], [], []],
+       [[114], [48], [50], [53], [67,71], [84,84,84], [84], [97,100,59,50], [], [], [], []]] := by
+  decide +kernel
+
 end Cutadapt.C17
